@@ -19,7 +19,7 @@ from trace import validate_traces
 
 
 def cases(ctx, maxn):
-    cfg = f"SPECIFICATION Spec\nCONSTANTS MaxN = {maxn}\n          WrapperConsumes = FALSE\nINVARIANT Export\nCHECK_DEADLOCK FALSE\n"
+    cfg = f"SPECIFICATION Spec\nCONSTANTS MaxN = {maxn}\n          WrapperConsumes = FALSE\n          ReleaseWakesWaiter = TRUE\nINVARIANT Export\nCHECK_DEADLOCK FALSE\n"
     open(f"{ctx.work}/Release_cases_{maxn}.cfg", "w").write(cfg)
     r = must_ok(run_tlc("Release", f"{ctx.work}/Release_cases_{maxn}.cfg", workdir=ctx.work, workers=1, timeout=600))
     ctx.add_tlc(r)
@@ -28,10 +28,13 @@ def cases(ctx, maxn):
         p = _P(r.out)
         p.i = m.start()
         v = p.value()[1]
-        key = (v["svc"], int(v["n"]), v["pos"], int(v["k"]))
+        key = (v["svc"], int(v["n"]), v["pos"], int(v["k"]), bool(v["tmo"]))
+        # (without a DIMSE timeout only the arrival points at which this side waits for a DIMSE response differ)
+        if not key[4] and not ((key[0] == "get" and key[2] == "sub") or key[2] == "ascu_wait"):
+            continue
         if key not in seen:
             seen.add(key)
-            out.append({"svc": key[0], "n": key[1], "pos": key[2], "k": key[3]})
+            out.append({"svc": key[0], "n": key[1], "pos": key[2], "k": key[3], "tmo": key[4]})
     if len(out) < 30:
         raise MachineryError(f"only {len(out)} arrival points exported")
     return out
@@ -50,6 +53,10 @@ def run(ctx: Ctx) -> int:
     if r2.violated != "C07_NeverSwallowed":
         raise MachineryError(f"the as-found design (wrapper consumes the indication) is not refuted by TLC: {r2.violated!r}")
     ctx.cov["as_found_design_refuted_by"] = "C07_NeverSwallowed (" + " -> ".join(l for l, _ in r2.trace[-6:]) + ")"
+    r3 = must_ok(run_tlc("Release", "Release_nowake.cfg", workdir=ctx.work, workers=4, timeout=900))
+    ctx.add_tlc(r3)
+    if r3.violated != "C07_Answered":
+        raise MachineryError(f"a release request that does not end a pending wait for a DIMSE response is not refuted by TLC: {r3.violated!r}")
     from release_lab import run_case
 
     cs = cases(ctx, 3 if thorough else 2)
@@ -79,7 +86,7 @@ def run(ctx: Ctx) -> int:
     for j, o in enumerate(obs):
         v = vs[j + 1][0]
         ctx.traces += 1
-        ctx.case((o["svc"], o["n"], o["pos"], o["k"]), nontrivial=o["pos"] not in ("idle", "between"))
+        ctx.case((o["svc"], o["n"], o["pos"], o["k"], o.get("tmo", True)), nontrivial=o["pos"] not in ("idle", "between"))
         if v == "ok":
             continue
         if v in ("UNREACHED", "LOCAL_ABORT"):
